@@ -6,3 +6,4 @@ import MoreExec.Props.C14
 #print axioms MoreExec.BoolOp.C14_output_cancel_fans_out
 #print axioms MoreExec.BoolOp.C14_step_closed_form
 #print axioms MoreExec.BoolOp.C14_repeated_inputs
+#print axioms MoreExec.BoolOp.C14_source_facts
